@@ -74,6 +74,8 @@ package v1
 //@   props C06
 //@   unverified iterates the fields of AnyExtension by reflection with a non-constant bound (bounded stand-in TestVerifBoundedParseExtensions)
 //@   bounded TestVerifBoundedParseExtensions
+//@   abstracts err == nil ==> len(res) == len(e)
+//@   abstracts err != nil ==> res == nil
 
 //@ func initCertificate returns (res, err)
 //@   props C03 C04 C05 C19
@@ -524,3 +526,18 @@ package v1
 //@ type GeneralName @C16,C07
 //@   json Type "type"
 //@   json Name "name"
+
+// initProfile (C08, C09, C04): name, subject attribute list and validity are taken over as parsed; every extension keeps
+// its position and its optional/override flags.
+//@ func initProfile returns (res, err)
+//@   props C08 C09 C04 C20
+//@   ghostret EXT (View Any) = seq(extTmp)
+//@   ghostret VAL gopki/generator/config.CertificateValidity = callres("(gopki/generator/config/v1.CertValidity).toTimeStruct", 1, 0)
+//@   ensures err != nil ==> res == nil
+//@   ensures @C08,C09,C04 err == nil ==> res != nil && fresh(res) && res.Name == p.ProfileName && res.SubjectAttributes == p.SubjectAttributes
+//@   ensures @C04 err == nil ==> bound(VAL) && res.Validity == VAL
+//@   ensures @C08 err == nil ==> bound(EXT) && len(res.Extensions) == vlen(EXT) && len(res.Extensions) == len(p.Extensions)
+//@   ensures @C08 err == nil && bound(EXT) ==> (forall k in [0, len(res.Extensions)) :: res.Extensions[k].ExtensionConfig == EXT[k] && res.Extensions[k].ExtensionProfile.Override == p.Extensions[k].Override && res.Extensions[k].ExtensionProfile.Optional == p.Extensions[k].Optional)
+//@   loop 1
+//@     invariant 0 <= idx && idx <= len(extTmp) && len(out.Extensions) == len(extTmp) && fresh(out.Extensions) && len(extTmp) == len(p.Extensions)
+//@     invariant @C08 forall k in [0, idx) :: out.Extensions[k].ExtensionConfig == extTmp[k] && out.Extensions[k].ExtensionProfile.Override == p.Extensions[k].Override && out.Extensions[k].ExtensionProfile.Optional == p.Extensions[k].Optional
